@@ -105,35 +105,59 @@ func (c *c08ctx) after(blk letter, signer *txT, burst []txT) (dump map[string][]
 	return d, code, gasUsed, nonce, ""
 }
 
-func runC08(r *ev.Run) {
-	w, err := newWorld(chain.GenesisOptions{})
-	if err != nil {
-		r.HarnessError("world: %v", err)
-		r.Finish()
-	}
-	// second genesis variant: a minimum transact balance, so that "balance too low" failures exist
-	w2, err := newWorld(chain.GenesisOptions{MinTransactBalance: 10})
-	if err != nil {
-		r.HarnessError("world: %v", err)
-		r.Finish()
-	}
-	menu := append(append(w.stakingTxs(), w.registryTxs()...), w.miscTxs()...)
-	byName := map[string]txT{}
-	for _, t := range menu {
-		byName[t.Name] = t
-	}
-	L := func(names ...string) []letter {
-		var ls []letter
-		for _, n := range names {
-			t, ok := byName[n]
-			if !ok {
-				panic("unknown tx " + n)
-			}
-			ls = append(ls, letter{Name: n, Txs: []txT{t}})
+type c08world struct {
+	w        *world
+	menu     []txT
+	byName   map[string]txT
+	prefixes [][]letter
+}
+
+func (cw *c08world) L(names ...string) []letter {
+	var ls []letter
+	for _, n := range names {
+		if n == "empty" {
+			ls = append(ls, letter{Name: "empty"})
+			continue
 		}
-		return ls
+		if strings.HasPrefix(n, "evidence=") {
+			ls = append(ls, letter{Name: n, Evidence: strings.TrimPrefix(n, "evidence=")})
+			continue
+		}
+		t, ok := cw.byName[n]
+		if !ok {
+			panic("unknown tx " + n)
+		}
+		ls = append(ls, letter{Name: n, Txs: []txT{t}})
 	}
-	prefixes := [][]letter{
+	return ls
+}
+
+func newC08World(r *ev.Run, o chain.GenesisOptions) *c08world {
+	w, err := newWorld(o)
+	if err != nil {
+		r.HarnessError("world: %v", err)
+		r.Finish()
+	}
+	cw := &c08world{w: w, byName: map[string]txT{}}
+	cw.menu = append(append(w.stakingTxs(), w.registryTxs()...), w.miscTxs()...)
+	if o.Runtime {
+		cw.menu = append(cw.menu, w.runtimeTxs()...)
+	}
+	for _, t := range cw.menu {
+		cw.byName[t.Name] = t
+	}
+	return cw
+}
+
+func runC08(r *ev.Run) {
+	cw0 := newC08World(r, chain.GenesisOptions{})
+	// second genesis variant: a minimum transact balance, so that "balance too low" failures exist
+	cw1 := newC08World(r, chain.GenesisOptions{MinTransactBalance: 10})
+	// third: a compute runtime with an incoming message queue of capacity 1, committees elected every block
+	cw2 := newC08World(r, chain.GenesisOptions{Runtime: true, EpochInterval: 1, NodeExpiration: 12})
+	worlds := []*c08world{cw0, cw1, cw2}
+	L := cw0.L
+	cw0.prefixes = [][]letter{
 		{},
 		L("escrow(a1->e1,333)"),
 		L("reclaim(a0<-e0,100sh)"),
@@ -142,15 +166,31 @@ func runC08(r *ev.Run) {
 		L("entity1-update nodes=[1,3]"),
 		L("entity(a0)-register new"),
 		L("transfer(a1->a2,2000=all)"),
-		{{Name: "evidence-after-block", Evidence: "dupvote:1"}},
+		L("evidence=dupvote:1"),
 	}
 	if r.Thorough() {
-		prefixes = append(prefixes,
+		cw0.prefixes = append(cw0.prefixes,
 			L("entity1-update nodes=[1,3]", "node3-new for e1"),
 			L("gov-submit-upgrade(e0)", "gov-vote(e2,#1,yes)"),
 			L("reclaim(a0<-e0,500sh=all)", "escrow(a0->e0,50)"),
 			L("allow(a0->a1,+30)", "withdraw(a1<-a0,20)"),
-			append([]letter{{Name: "empty"}, {Name: "empty"}}, L("reclaim(e1<-e1,1000sh)")...),
+			L("empty", "empty", "reclaim(e1<-e1,1000sh)"),
+		)
+	}
+	cw1.prefixes = [][]letter{{}, cw1.L("escrow(a1->e1,333)"), cw1.L("transfer(a1->a2,2000=all)")}
+	cw2.prefixes = [][]letter{
+		{},
+		cw2.L("submitmsg(a0,fee1,tokens2)"), // queue full
+		cw2.L("empty", "empty", "empty"), // committee elected
+		cw2.L("empty", "empty", "empty", "submitmsg(a1,fee3,tokens0)"),
+		cw2.L("runtime-update(e0,->runtime governance)"),
+		cw2.L("runtime-update(e0,max-in-msgs+1)", "submitmsg(a0,fee1,tokens2)"),
+	}
+	if r.Thorough() {
+		cw2.prefixes = append(cw2.prefixes,
+			cw2.L("runtime-new(e1)"),
+			cw2.L("runtime-update(e0,owner->e1)"),
+			cw2.L("runtime-new(e2,runtime governance)", "empty"),
 		)
 	}
 	specs := []rspec{{Name: "P/badger", Path: chain.PathPropose, Backend: "badger"}}
@@ -163,8 +203,9 @@ func runC08(r *ev.Run) {
 		bb, _ := json.Marshal(v.Artefact)
 		var a c08Artefact
 		_ = json.Unmarshal(bb, &a)
-		c := &c08ctx{w: []*world{w, w2}[a.Variant], prefix: L(a.Prefix...), specs: specs}
-		what := c08One(c, byName[a.Tx], a.Gas, menu, a.Mode)
+		cw := worlds[a.Variant]
+		c := &c08ctx{w: cw.w, prefix: cw.L(a.Prefix...), specs: specs}
+		what := c08One(c, cw.byName[a.Tx], a.Gas, cw.menu, a.Mode)
 		if what != "" {
 			fmt.Printf("VIOLATION property=C08 replay=%s\n  what: %s\n", r.Replay, what)
 			os.Exit(1)
@@ -178,25 +219,27 @@ func runC08(r *ev.Run) {
 		ti int // -1 = burst check
 	}
 	var jobs []job
-	for pi := range prefixes {
-		jobs = append(jobs, job{0, pi, -1})
-		for ti := range menu {
-			jobs = append(jobs, job{0, pi, ti})
+	nPrefixes := 0
+	for wi, cw := range worlds {
+		nPrefixes += len(cw.prefixes)
+		for pi := range cw.prefixes {
+			if wi != 1 {
+				jobs = append(jobs, job{wi, pi, -1})
+			}
+			for ti := range cw.menu {
+				jobs = append(jobs, job{wi, pi, ti})
+			}
 		}
 	}
-	for _, pi := range []int{0, 1, 7} {
-		for ti := range menu {
-			jobs = append(jobs, job{1, pi, ti})
-		}
-	}
-	worlds := []*world{w, w2}
 	ev.ParallelRange(len(jobs), r.Seed, func(ji int) {
 		if r.Expired() {
 			r.Cap("deadline")
 			return
 		}
 		j := jobs[ji]
-		c := &c08ctx{w: worlds[j.wi], prefix: prefixes[j.pi], specs: specs}
+		cw := worlds[j.wi]
+		menu := cw.menu
+		c := &c08ctx{w: cw.w, prefix: cw.prefixes[j.pi], specs: specs}
 		var pn []string
 		for _, l := range c.prefix {
 			pn = append(pn, l.Name)
@@ -244,12 +287,13 @@ func runC08(r *ev.Run) {
 			r.Sample(map[string]any{"pre_state": pn, "tx": t.Name, "gas_limits": gases, "code_with_plenty_gas": code}, 6)
 		}
 	})
-	r.Add("states", int64(len(prefixes)))
-	r.Set("transactions_in_menu", len(menu))
-	r.Set("pre_states", len(prefixes))
+	r.Add("states", int64(nPrefixes))
+	r.Set("transactions_in_menu", len(cw0.menu))
+	r.Set("transactions_in_runtime_menu", len(cw2.menu))
+	r.Set("pre_states", nPrefixes)
 	r.Alias("traces_validated_against_impl", "transitions")
-	r.Set("rule", "for every pre-state (genesis and scripted prefixes: delegation, debonding in flight, allowance, open proposal, updated entity, new entity, drained account, slashed validator) and every transaction of the menu (all staking methods, governance, registry entity/node incl. key swaps and wrong signers, beacon, roothash, vault; valid and invalid in one respect) and every gas limit 0..needed: replica X executes [t], twin Y the empty block, twin Z a trivially atomic failing transaction of the same signer with the same fee, gas and nonce (undecodable body); if t fails: the signer's nonce did not advance => dump(X) = dump(Y), else dump(X) = dump(Z) (full key/value dump of the consensus state). Independently a burst of CheckTx + EstimateGas of the whole menu before an empty block leaves the dump equal to the twin without the burst")
-	r.Assume("MaxBlockGas = 0 so that a failed transaction's gas cannot legitimately affect the rest of the block", "transactions the harness cannot construct validly (TEE-attested nodes, runtime registration, key manager and CHURP methods) are not in the menu")
+	r.Set("rule", "for every pre-state (genesis and scripted prefixes: delegation, debonding in flight, allowance, open proposal, updated entity, new entity, drained account, slashed validator) and every transaction of the menu (all staking methods, governance, registry entity/node incl. key swaps and wrong signers, beacon, roothash, vault; with the runtime genesis also roothash.SubmitMsg into a full / non-full queue, with fee below the minimum, without funds, registry.RegisterRuntime updates by owner and non-owner, governance-model transitions, new runtimes, executor commits and evidence; valid and invalid in one respect) and every gas limit 0..needed: replica X executes [t], twin Y the empty block, twin Z a trivially atomic failing transaction of the same signer with the same fee, gas and nonce (undecodable body); if t fails: the signer's nonce did not advance => dump(X) = dump(Y), else dump(X) = dump(Z) (full key/value dump of the consensus state). Independently a burst of CheckTx + EstimateGas of the whole menu before an empty block leaves the dump equal to the twin without the burst")
+	r.Assume("MaxBlockGas = 0 so that a failed transaction's gas cannot legitimately affect the rest of the block", "transactions the harness cannot construct validly (TEE-attested nodes, valid executor commitments, key manager and CHURP methods) are not in the menu")
 	r.Finish()
 }
 
